@@ -38,6 +38,13 @@ def exact_history(rnd, label, families):
         else:
             alpha, beta = 0.0, 0.0
         ll = gl.rnd_limits(rnd, d, 0, 3, 0.6)
+        if t in gl.CURVED_TYPES and d <= 3 and rnd.random() < 0.4:
+            # a curved contour that is not lower (linear + curved weight negative in one direction): the selection is grown and
+            # completed to a lower set; mostly with level limits present (they switch the selection routine)
+            j = rnd.randrange(d)
+            aw = [1] * d + [(-3 if i == j else rnd.choice([0, 0, 1])) for i in range(d)]
+            depth = min(depth, 3)
+            ll = [rnd.choice([3, 4, 5]) for _ in range(d)] if rnd.random() < 0.7 else []
         L.append("make global %d %d %d %s %s %s %s %g %g" % (d, outs, depth, t, rule, gl.ivec(aw), gl.ivec(ll), alpha, beta))
         nested = rule in gl.GLOBAL_NESTED
     elif fam == "sequence":
@@ -46,7 +53,13 @@ def exact_history(rnd, label, families):
         depth = rnd.randint(1, {1: 6, 2: 4, 3: 3}[d])
         if t in gl.TENSOR_TYPES:
             depth = min(depth, 2)
-        L.append("make sequence %d %d %d %s %s %s %s" % (d, outs, depth, t, rule, gl.ivec(aw), gl.ivec(gl.rnd_limits(rnd, d, 0, 4, 0.6))))
+        sll = gl.rnd_limits(rnd, d, 0, 4, 0.6)
+        if t in gl.CURVED_TYPES and d <= 3 and rnd.random() < 0.4:
+            j = rnd.randrange(d)
+            aw = [1] * d + [(-3 if i == j else rnd.choice([0, 0, 1])) for i in range(d)]
+            depth = min(depth, 4)
+            sll = [rnd.choice([4, 6, 8]) for _ in range(d)] if rnd.random() < 0.7 else []
+        L.append("make sequence %d %d %d %s %s %s %s" % (d, outs, depth, t, rule, gl.ivec(aw), gl.ivec(sll)))
         nested = True
     elif fam == "fourier":
         t, aw = gl.rnd_type_weights(rnd, d)
